@@ -86,6 +86,34 @@ def run(R):
     R.check(ok, "C06.REGISTRY", "AsyncTask._contexts:ordered", R.site(init),
             "the per-task context map is insertion ordered (OrderedDict/dict)", "the per-task context map is not an insertion-ordered mapping")
 
+    # ... and is changed by registration and unregistration only: a context stays registered as long as its block is open - also
+    # after its task has completed (a with-block of an async generator's body outlives the task it was entered under; leaving it
+    # then unregisters from that task)
+    allowed_w = set([init.qualname, ent.qualname, lev.qualname])
+    nw = 0
+    for f in repo.all_functions():
+        if f.module.name.startswith("tests"):
+            continue
+        for node in q.scope_nodes(f.node):
+            hit = None
+            if isinstance(node, (ast.Assign, ast.AugAssign, ast.Delete)):
+                tg = node.targets if isinstance(node, (ast.Assign, ast.Delete)) else [node.target]
+                for t in tg:
+                    base = t.value if isinstance(t, ast.Subscript) else t
+                    if isinstance(base, ast.Attribute) and base.attr == "_contexts":
+                        hit = node
+            elif isinstance(node, ast.Call) and q.attr_call(node)[1] in ("clear", "pop", "popitem", "update", "setdefault", "__setitem__", "__delitem__") \
+                    and isinstance(q.attr_call(node)[0], ast.Attribute) and q.attr_call(node)[0].attr == "_contexts":
+                hit = node
+            if hit is None:
+                continue
+            nw += 1
+            R.check(f.qualname in allowed_w, "C06.REGISTRY", "%s:writes:%s" % (f.qualname, q.stmt_key(q.enclosing_stmt(hit))[:40]), R.site(f, hit),
+                    "the context map is changed by %s" % f.name,
+                    "%s changes a task's context map (`%s`) outside registration/unregistration: a context whose block is still open - the body of an async "
+                    "generator keeps one open across Values, under a task that has completed meanwhile - is gone from the map, and leaving the block raises "
+                    "KeyError inside the body" % (f.qualname, q.src(q.enclosing_stmt(hit))[:50]))
+    R.check(nw >= 3, "C06.REGISTRY", "AsyncTask._contexts:writers", R.site(init), "%d writes to the context map examined" % nw, "fewer than 3 writes to the context map found")
     # ---- RESUME-DOM
     ct = ro.continue_task_method()
     st = ro.step_method_task()
@@ -175,6 +203,19 @@ def run(R):
         R.check(p is None and flips, "C06.ALTERNATE", m.qualname + ":flip", R.site(m),
                 "the flag is flipped before the first hook runs (a hook that re-enters the scheduler sees the new state)",
                 "a hook can run before the flag is flipped", mcfg.fmt_path(p) if p else None)
+        # ... and whenever the flag says there is work to do, it is done: the flag is the only reason to return early (a computed task's
+        # contexts are resumed once more before its generator is closed, a task being dropped is paused whatever its state)
+        def idle(e, mcfg=mcfg, go=go):
+            lab = go(mcfg.nodes[e.src])
+            return not (lab is not None and e.label in ("T", "F") and e.label != lab)
+        p = mcfg.find_path([mcfg.entry], [mcfg.exit], N, cut_nodes=flips, keep_edge=idle)
+        R.check(p is None, "C06.ALTERNATE", m.qualname + ":always", R.site(m),
+                "%s does its work whenever the contexts are %s" % (mname, "active" if hook == "pause" else "paused"),
+                "%s can return without touching the contexts although they are %s (an early return that depends on something else than the flag): "
+                "%s" % (mname, "active" if hook == "pause" else "paused",
+                        "a task completed while it was suspended has its generator closed - its finally blocks and __exit__ methods run - with its contexts paused"
+                        if hook == "resume" else "a task that is suspended keeps its contexts in effect for the tasks that run next"),
+                mcfg.fmt_path(p) if p else None)
         wrong = [n for n in kit.store_nodes(m, flagname) if n not in flips]
         R.check(not wrong, "C06.ALTERNATE", m.qualname + ":only-flip", R.site(m),
                 "%s writes the flag only to %s" % (mname, newval), "%s writes the flag to another value" % mname)
@@ -434,6 +475,50 @@ def enter_exit_rules(R, P):
                     "outside asyncio mode %s calls %s(self, ...) on every path" % (m.name, reg),
                     "outside asyncio mode %s can skip %s(self): the scheduler does not know about the context (no pause when the task is suspended) "
                     "or keeps pausing a context that was left" % (m.name, reg), cfg.fmt_path(p) if p else None)
+    # ---- the block is left on the task it was entered under (remembered by __enter__), whichever task happens to be active then:
+    # a with-block of an async generator's body is entered inside the consumer's next(gen) and left inside the generator's own task
+    exm = AC.methods["__exit__"]
+    for c in q.calls(exm.node):
+        targ = None
+        if q.call_name(c) == "leave_context" and len(c.args) >= 2 and q.src(c.args[0]) == "self":
+            targ = c.args[1]
+        elif q.attr_call(c)[1] == "_leave_context" and c.args and q.src(c.args[0]) == "self":
+            targ = q.attr_call(c)[0]
+        if targ is None:
+            continue
+        srcs = [targ]
+        if isinstance(targ, ast.Name):
+            srcs = [v for k_, v in common.assigned_values(exm.node, targ.id) if k_ == "expr"] or [targ]
+        okt = all(q.src(v) == "self._active_task" for v in srcs)
+        R.check(okt, P + ".ENTER-EXIT", exm.qualname + ":remembered-task", R.site(exm, c),
+                "__exit__ unregisters the context from the task __enter__ registered it with (self._active_task)",
+                "__exit__ unregisters the context from `%s`, not from the task remembered by __enter__: a block that is entered under one task and left "
+                "under another (the body of an async generator: entered inside the consumer's next(gen), left inside the generator's own task) raises KeyError "
+                "on leaving, or stays registered with the first task for ever" % "; ".join(q.src(v) for v in srcs))
+    # ---- a failing resume() on entry leaves nothing registered: the block is not entered, so __exit__ will not run
+    en = AC.methods["__enter__"]
+    cfg = cfg_of(en)
+    regs = [n for n, c in kit.call_sites(en, lambda c: (q.call_name(c) == "enter_context" or q.attr_call(c)[1] == "_enter_context") and c.args and q.src(c.args[0]) == "self")]
+    unregs = [n for n, c in kit.call_sites(en, lambda c: (q.call_name(c) == "leave_context" or q.attr_call(c)[1] == "_leave_context") and c.args and q.src(c.args[0]) == "self")]
+    after_reg = cfg.reachable(regs, N) if regs else set()
+    for n, c in _calls_on_self(en, "resume"):
+        if n.id not in after_reg:
+            continue            # (asyncio mode: nothing is registered)
+        recvs = set(q.src(q.attr_call(c2)[0]) for n2, c2 in kit.call_sites(en, lambda c2: q.attr_call(c2)[1] == "_leave_context") if q.attr_call(c2)[0] is not None)
+
+        def registered(e, recvs=recvs):
+            # written-out form: nothing to unregister when there was no active task
+            nd = cfg.nodes[e.src]
+            if nd.kind != "test":
+                return True
+            k_, s_, pos_ = q.atom_test(nd.ast)
+            return not (k_ == "isnone" and s_ in recvs and e.label == ("T" if pos_ else "F"))
+        px = cfg.find_path([n], [cfg.raise_exit], X, cut_nodes=unregs, keep_edge=registered, include_source_check=False)
+        R.check(px is None, P + ".ENTER-EXIT", en.qualname + ":resume-fails", R.site(en, c),
+                "when self.resume() raises on entry, __enter__ unregisters the context before the exception leaves",
+                "when self.resume() raises here the context stays registered with the task although the block is never entered and __exit__ never runs: "
+                "the scheduler goes on pausing and resuming it at every suspension of the task (e.g. async_override of a missing attribute)",
+                cfg.fmt_path(px) if px else None)
     pause_typestate(R, P)
     from ..roles import Roles as _Roles
     common.unwind_pauses(R, _Roles(R), P + ".UNWIND-PAUSE")
